@@ -1,5 +1,5 @@
 """Correspondence for the source-to-Lean translator (gen/py2lean.py) and its run-time library (lean/Asn1/PyLite.lean):
-the *translation* of a function (driver ops KTAG, KLEN, KTOBYTES, KOIDENC, KOIDDEC, KTIME, KREAL, KREALDEC, KDECLEN, KCERBOOL, KWRAP, KINTDEC; PYFROMBYTES) and the function itself in /repo are
+the *translation* of a function (driver ops KTAG, KLEN, KTOBYTES, KOIDENC, KOIDDEC, KTIME, KREAL, KREALDEC, KDECLEN, KDECTAG, KCERBOOL, KWRAP, KINTDEC; PYFROMBYTES) and the function itself in /repo are
 run on the same arguments; the Python builtins PyLite transcribes (PYOP) are compared with CPython.
 
 A disagreement means the translator or PyLite misrepresents the code (machinery fault to repair) - it is reported as a
@@ -47,7 +47,7 @@ def _py(f, *a, **kw):
     return ('ok', r)
 
 
-def check(rep, drv, seed, n=400, which=('encodeTag', 'encodeLength', 'toBytes', 'oidEncode', 'oidDecode', 'timeCanon', 'realBin', 'realDec', 'decodeLength', 'cerBool', 'wrapTags', 'intDecode')):
+def check(rep, drv, seed, n=400, which=('encodeTag', 'encodeLength', 'toBytes', 'oidEncode', 'oidDecode', 'timeCanon', 'realBin', 'realDec', 'decodeLength', 'cerBool', 'wrapTags', 'intDecode', 'decodeTag')):
     """returns number of cases compared"""
     from pyasn1.codec.ber import encoder as benc, decoder as bdec
     from pyasn1.compat import integer
@@ -336,6 +336,49 @@ def check(rep, drv, seed, n=400, which=('encodeTag', 'encodeLength', 'toBytes', 
             if impl[0] == 'err' and impl[1] == 'EndOfStreamError':
                 impl = ('err', 'SubstrateUnderrunError')
             cmp_('decodeLength', 'KDECLEN %d %d %s' % (1 if indef else 0, fo, ' '.join(map(str, enc_len))), impl)
+    if 'decodeTag' in which:
+        import io as _io4
+        import re as _re
+        from pyasn1 import debug as _debug2
+        for i in range(n):
+            cls = rng.choice([0, 0x40, 0x80, 0xC0])
+            fmt = rng.choice([0, 0x20])
+            complete = True
+            if rng.random() < 0.35:
+                ident = [cls | fmt | rng.randrange(0, 31)]
+            else:
+                k = rng.choice([1, 1, 2, 2, 3, 5, 9, 10, 40])
+                body = [rng.choice([0x80, 0xff, 0x81, 0x80 | rng.randrange(128)]) for _ in range(k - 1)] + [rng.randrange(128)]
+                if rng.random() < 0.15:
+                    body = body[:rng.randrange(0, k)]             # the stream ends inside the identifier octets
+                    complete = False
+                ident = [cls | fmt | 0x1F] + body
+            if rng.random() < 0.03:
+                ident, complete = [], False
+            data = bytes(ident) + (bytes([3, 2, 1, 5, 0, 0, 0]) if complete else b'')
+            stream = _io4.BytesIO(data)
+            seen_t = []
+
+            def printer_t(msg, _stream=stream, _seen=seen_t):
+                m_ = _re.search(r'tag decoded into <TagSet object, tags (\d+):(\d+):(\d+)>', msg)
+                if m_ and not _seen:
+                    _seen.append([int(m_.group(1)), int(m_.group(2)), int(m_.group(3)), _stream.tell()])
+
+            def real_t():
+                _debug2.setLogger(_debug2.Debug('decoder', printer=printer_t))
+                try:
+                    try:
+                        bdec.decode(stream)
+                    except Exception:  # noqa
+                        if not seen_t:
+                            raise
+                finally:
+                    _debug2.setLogger(None)
+                return seen_t[0] if seen_t else ['no-tag']
+            impl = _py(real_t)
+            if impl[0] == 'err' and impl[1] == 'EndOfStreamError':
+                impl = ('err', 'SubstrateUnderrunError')
+            cmp_('decodeTag', 'KDECTAG %s' % ' '.join(map(str, data)), impl)
     if 'cerBool' in which:
         import io as _io2
         from pyasn1.codec.cer import decoder as cdec_
